@@ -27,3 +27,8 @@ def run(ctx):
     from ..engines import dispatch as DP
     DP.d2_static_overrides_are_named(ctx, ("Constructor",))
     ctx.floor("D2", 4)
+    V.v12_initial_conditions_bound(ctx)
+    ctx.floor("V12", 2)
+    from ..engines import sizecheck as SCC
+    SCC.s0_compositions(ctx)
+    ctx.floor("S0", 4)
